@@ -203,7 +203,7 @@ class AsyncTLSStreamTransport(AsyncStreamTransport):
     async def recv(self, bufsize: int) -> bytes:
         assert _ssl_module is not None, "stdlib ssl module not available"  # nosec assert_used
         try:
-            return await self._retry_ssl_method(self._ssl_object.read, bufsize)
+            return await self._retry_ssl_method(self._ssl_object.read, bufsize, _reading=True)
         except _ssl_module.SSLZeroReturnError:
             return b""
         except _ssl_module.SSLError as exc:
@@ -217,7 +217,7 @@ class AsyncTLSStreamTransport(AsyncStreamTransport):
         assert _ssl_module is not None, "stdlib ssl module not available"  # nosec assert_used
         nbytes = memoryview(buffer).nbytes or 1024
         try:
-            return await self._retry_ssl_method(self._ssl_object.read, nbytes, buffer)  # type: ignore[arg-type]
+            return await self._retry_ssl_method(self._ssl_object.read, nbytes, buffer, _reading=True)  # type: ignore[arg-type]
         except _ssl_module.SSLZeroReturnError:
             return 0
         except _ssl_module.SSLError as exc:
@@ -274,6 +274,7 @@ class AsyncTLSStreamTransport(AsyncStreamTransport):
         self,
         ssl_object_method: Callable[[*_T_PosArgs], _T_Return],
         *args: *_T_PosArgs,
+        _reading: bool = False,
     ) -> _T_Return:
         assert _ssl_module is not None, "stdlib ssl module not available"  # nosec assert_used
         while True:
@@ -284,7 +285,9 @@ class AsyncTLSStreamTransport(AsyncStreamTransport):
                     # Flush any pending writes first
                     # (do not wait for the send lock if there is nothing to flush: a sender blocked by the peer
                     # would otherwise prevent any read, and both sides could wait for each other forever)
-                    if self._write_bio.pending:
+                    # A reader never queues behind a sender that already holds the lock: the holder, or the senders
+                    # waiting behind it, flush what is pending.
+                    if self._write_bio.pending and not (_reading and self.__transport_send_lock.locked()):
                         async with self.__transport_send_lock:
                             if self._write_bio.pending:
                                 await self._transport.send_all(self._write_bio.read())
@@ -304,7 +307,7 @@ class AsyncTLSStreamTransport(AsyncStreamTransport):
                 raise
             else:
                 # Flush any pending writes first
-                if self._write_bio.pending:
+                if self._write_bio.pending and not (_reading and self.__transport_send_lock.locked()):
                     async with self.__transport_send_lock:
                         if self._write_bio.pending:
                             await self._transport.send_all(self._write_bio.read())
